@@ -42,6 +42,10 @@ CLAIMED = {
          "installed only after a successful merge; write then sync per manifest record; next-file-number record, persist(ok), apply-to-clone, install in one write hold; journal created, snapshotted(ok), CURRENT switched by tmp+rename(ok), then adopted; replay(ok) before the new journal; obsolete manifests deleted only after "
          "recovery, never the live one, only from newStore; os mutators only via owned seams; each Log codec symmetric per field, every Log type registered, snapshot re-emits every additive record kind and the next FILE number, Clone carries every component; a new table's number is one value through allocate/pending/create. "
          "File-system semantics and replayed contents are not decided."),
+ 'C02': ("static analysis: guarded-by (whole-program field access under a mutex, exception table), lock-hold atomicity of pick+retain, ownership of retain/release/evict/unmap, keep-set union and order, typestate of snapshot values",
+         "Decides the lock discipline and keep-set structure that make deletion safe for every interleaving: version lists only under the family-version mutex; current picked and retained in one hold; retain only in snapshot creation, release only in the CAS-guarded Close; "
+         "a version forgotten only when not current; cleanup keep-set = pending (read first) + files of ALL active versions + live rollup files, evict before delete, table files only; readers closed only by the cache, time-based eviction only at ref==0; every snapshot value closed on all paths or handed to a listed owner; "
+         "background jobs close their snapshot before cleaning. Races outside these scopes and content equality are not decided."),
  'C05': ("static analysis: lock-hold dataflow (ATOMIC), dominance (ORDER), value provenance and writer/reader layout agreement over go/ssa",
          "Decides, for every path of the append code as written, that one Put is a single write hold of queue.rwMutex covering cursor advance, data write, "
          "index entry, meta write and sequence publication; that data<index<meta<publish<signal is the only order; that the published sequence is appendedSeq+1 "
